@@ -1,5 +1,6 @@
 import Driver.Common
 import FranzVerif.Model.Producer
+import FranzVerif.Model.ProducerWake
 /-! Shared sub-driver for the producer histories (C01, C03, C14): parses the event tokens of
 `harness/cmd/sim01`, runs the monitor and reports the first refused rule that belongs to the
 property being checked. After a refusal the state is advanced with `apply` so that the rest of the
@@ -26,7 +27,7 @@ def parseEv (t : String) : Option Ev :=
   | ["B", id] => do some (.hookB (← id.toNat?))
   | ["A", id, n, b, sz] => do some (.admit (← id.toNat?) (← n.toNat?) (← b.toNat?) (← sz.toNat?))
   | ["K", id] => do some (.block (← id.toNat?))
-  | ["W", id] => do some (.unblock (← id.toNat?))
+  | ["W", id, _bl] => do some (.unblock (← id.toNat?))
   | ["U", id, e] => do some (.hookU (← id.toNat?) (parseErr e))
   | ["R", id, e, _off] => do some (.promise (← id.toNat?) (parseErr e))
   | ["D", id, n, b] => do some (.release (← id.toNat?) (← n.toNat?) (← b.toNat?))
@@ -39,6 +40,39 @@ def parseEv (t : String) : Option Ev :=
   | ["Ce"] => some .closeEnd
   | ["Q", n, b, _] => do some (.quiesce (← n.toNat?) (← b.toNat?))
   | _ => none
+
+/-- tokens that only the wake-up monitor reads -/
+def isWakeOnly (t : String) : Bool := t.startsWith "Ww:" || t.startsWith "Dw:" || t.startsWith "Bc:"
+
+/-- The wake-up monitor's view of the history: `W`+`Ww`, `A`, `D`+`Dw`, `Bc`, `X`, `Q`. -/
+partial def wakeEvents : List String → List Model.ProducerWake.Ev → List Model.ProducerWake.Ev
+  | [], acc => acc.reverse
+  | t :: rest, acc =>
+    match t.splitOn ":", rest with
+    | ["W", id, bl], t2 :: rest2 =>
+      match t2.splitOn ":" with
+      | ["Ww", _, n, fl] => match id.toNat?, bl.toNat?, n.toNat?, fl.toNat? with
+        | some i, some b, some n, some f => wakeEvents rest2 (.unblocked i b n f :: acc)
+        | _, _, _, _ => wakeEvents rest acc
+      | _ => wakeEvents rest acc
+    | ["A", id, _, _, _], _ => match id.toNat? with | some i => wakeEvents rest (.admitted i :: acc) | none => wakeEvents rest acc
+    | ["D", id, n, _], t2 :: rest2 =>
+      match t2.splitOn ":" with
+      | ["Dw", _, bl, fl] => match id.toNat?, n.toNat?, bl.toNat?, fl.toNat? with
+        | some i, some n, some b, some f => wakeEvents rest2 (.released i n b f :: acc)
+        | _, _, _, _ => wakeEvents rest acc
+      | _ => wakeEvents rest acc
+    | ["Bc", site], _ => wakeEvents rest (.bcast (site.toNat?.getD 0) :: acc)
+    | ["X", id], _ => match id.toNat? with | some i => wakeEvents rest (.returned i :: acc) | none => wakeEvents rest acc
+    | ["Q", _, _, _], _ => wakeEvents rest (.quiesce :: acc)
+    | _, _ => wakeEvents rest acc
+
+def wakeRefusals : Model.ProducerWake.St → List Model.ProducerWake.Ev → List String → List String
+  | _, [], acc => acc.reverse
+  | s, e :: es, acc =>
+    match Model.ProducerWake.check s e with
+    | none => wakeRefusals (Model.ProducerWake.apply s e) es acc
+    | some r => wakeRefusals (Model.ProducerWake.apply s e) es (r :: acc)
 
 def parseCfg (t : String) : Option Cfg :=
   match t.splitOn ":" with
@@ -64,10 +98,12 @@ def handle (prop : String) (line : String) : String :=
     match parseCfg ct with
     | none => "!bad-cfg | - | 0"
     | some c =>
+      let wake := wakeRefusals {} (wakeEvents ets []) []
+      let ets := ets.filter (fun t => !isWakeOnly t)
       let evs := ets.map parseEv
       if evs.any (·.isNone) then "!bad-event | - | 0" else
       let es := evs.filterMap id
-      let rs := refusals c {} es 0 []
+      let rs := refusals c {} es 0 [] ++ wake.map (fun r => (0, r))
       let mine := rs.filter (fun (_, r) => r.startsWith prop)
       let nBlock := (es.filter (fun e => match e with | .block _ => true | _ => false)).length
       let nErr := (es.filter (fun e => match e with | .promise _ e => e.cls != .ok | _ => false)).length
